@@ -4,7 +4,7 @@ import json, os, sys, time
 from .compdb import AnalysisBroken, REPO, VERIF
 
 KNOWN_FILE = os.path.join(VERIF, 'known_findings.json')
-EVID_DIR = os.path.join(VERIF, 'evidence')
+EVID_DIR = os.environ.get('VERIF_EVID_DIR') or os.path.join(VERIF, 'evidence')
 
 
 class Report:
